@@ -141,9 +141,19 @@ func Managed() bool { return current() != nil }
 //go:noinline
 func park(t *Thread, op Op) {
 	t.pending = op
-	turn = explorerTurn
+	if t.revoked {
+		// the thread was parked inside a blocking operation (sync.Cond.Wait re-locking its mutex, a select that woke up)
+		// when the explorer took the turn away: it does not hold the turn, it only asks for one
+		t.ext = 2
+	} else {
+		turn = explorerTurn
+	}
 	for turn != t.id {
 		runtime.Gosched()
+	}
+	if t.revoked {
+		t.revoked = false
+		t.ext = 0
 	}
 }
 
@@ -315,6 +325,7 @@ func grant(t *Thread) {
 			// the thread is inside a blocking operation and has not run although every other goroutine yielded extSpin
 			// times: it is parked in the runtime. Take the turn away; extEnd makes it wait for a new one.
 			t.revoked = true
+			t.pending = Op{Kind: OpExt} // whatever it announced last has been performed; now it is parked
 			turn = explorerTurn
 			return
 		}
